@@ -194,6 +194,23 @@ def m_into(it, ctx, a, m, f):
     m2 = re.search(r'<(\w+) as Into<(\w+)>>', f)
     if m2 and m2.group(1) == m2.group(2):
         return v
+    # swc_ecma_ast's derived conversions: wrap a node into the enum variant that holds it / ExprOrSpread from an expression
+    m3 = re.search(r'^<(.*) as From<(.*)>>::from$', f)
+    if m3:
+        tgt, src = m3.group(1), m3.group(2)
+    else:
+        m3 = re.search(r'^<(.*) as Into<(.*)>>::into$', f)
+        tgt, src = (m3.group(2), m3.group(1)) if m3 else (None, None)
+    if tgt:
+        unbox = lambda t: re.sub(r'^(?:Box<(.*)>)$', r'\1', t.strip())
+        bt, bs = unbox(tgt), unbox(src)
+        if bt == bs:
+            return v
+        if bt == 'ExprOrSpread' and bs == 'Expr':
+            return Adt('ExprOrSpread', None, [NoneV(), v], ['spread', 'expr'])
+        vs = [vn for vn, fts, _, _ in it.T.enums.get(bt, []) if len(fts) == 1 and unbox(fts[0]) == bs]
+        if len(vs) == 1 and bt not in ('Option', 'Result'):
+            return Adt(bt, vs[0], [v])
     raise Unsupported('conversion ' + f[:200] + ' on ' + repr(v)[:60])
 
 
@@ -285,6 +302,59 @@ def m_trim(it, ctx, a, m, f):
     if m.group(1) in ('trim', 'trim_end'):
         cs = _trim_end(ctx, cs, is_rust_whitespace)
     return sub(s, cs)
+
+
+_CHARPAT = r'(char|\[char; \d+\]|&\[char; \d+\]|&\[char\]|fn\(char\) -> bool \{.*\}|\{closure@.*\})'
+
+
+def _char_pred(it, ctx, pat, ty):
+    """a `Pattern` that matches single chars (char, [char; N], &[char], FnMut(char) -> bool) as a predicate char -> bool term.
+    Closure predicates are run on the interpreter (they may fork)."""
+    if ty == 'char':
+        return lambda c: v_eq(c, pat)
+    if ty.startswith('[char') or ty.startswith('&[char'):
+        xs = list(deref(pat))
+        return lambda c: b_or(*[v_eq(c, x) for x in xs])
+    return lambda c: it.call_closure(ctx, pat, [c])
+
+
+@model(r'str::<impl str>::(trim_start_matches|trim_end_matches|trim_matches)::<' + _CHARPAT + r'>$')
+def m_trim_matches_pat(it, ctx, a, m, f):
+    s = S(a[0]); pred = _char_pred(it, ctx, a[1], m.group(2)); cs = s.cs
+    if m.group(1) in ('trim_start_matches', 'trim_matches'):
+        cs = _trim_start(ctx, cs, pred)
+    if m.group(1) in ('trim_end_matches', 'trim_matches'):
+        cs = _trim_end(ctx, cs, pred)
+    return sub(s, cs)
+
+
+@model(r'str::<impl str>::contains::<(\[char; \d+\]|&\[char; \d+\]|&\[char\]|fn\(char\) -> bool \{.*\}|\{closure@.*\})>$')
+def m_contains_pat(it, ctx, a, m, f):
+    s = S(a[0]); pred = _char_pred(it, ctx, a[1], m.group(1))
+    if m.group(1).startswith(('[', '&')):
+        return b_or(*[pred(c) for c in s.cs])
+    for c in s.cs:
+        if ctx.decide(pred(c)):
+            return True
+    return False
+
+
+@model(r'str::<impl str>::(starts_with|ends_with)::<(\[char; \d+\]|&\[char; \d+\]|&\[char\])>$')
+def m_starts_with_set(it, ctx, a, m, f):
+    s = S(a[0])
+    if not s.cs:
+        return False
+    return _char_pred(it, ctx, a[1], m.group(2))(s.cs[0] if m.group(1) == 'starts_with' else s.cs[-1])
+
+
+@model(r'str::<impl str>::(find|rfind)::<(\[char; \d+\]|&\[char; \d+\]|&\[char\]|fn\(char\) -> bool \{.*\}|\{closure@.*\})>$')
+def m_find_pat(it, ctx, a, m, f):
+    s = S(a[0]); pred = _char_pred(it, ctx, a[1], m.group(2))
+    rng = range(len(s.cs)) if m.group(1) == 'find' else range(len(s.cs) - 1, -1, -1)
+    for i in rng:
+        if ctx.decide(pred(s.cs[i])):
+            return Some(it.utf8_len(ctx, SStr(s.cs[:i])))
+    return NoneV()
 
 
 @model(r'str::<impl str>::trim_start_matches::<char>$')
@@ -805,6 +875,40 @@ def m_take(it, ctx, a, m, f):
         r.set(NoneV())
     else:
         raise Unsupported('mem::take of ' + repr(v)[:60])
+    return v
+
+
+def _dummy_span():
+    return Adt('Span', None, [0, 0], ['lo', 'hi'])
+
+
+def _dummy_of(ty):
+    """swc's `Take::dummy()` for the AST types whose dummy is `Invalid`/empty (see swc_ecma_ast)."""
+    ty = ty.strip()
+    mb = re.match(r'^(?:std::boxed::)?Box<(.*)>$', ty)
+    if mb:
+        return _dummy_of(mb.group(1))
+    t = ty.split('<')[0].split('::')[-1]
+    if t == 'Vec':
+        return []
+    if t == 'Option':
+        return NoneV()
+    if t in ('Expr', 'Pat'):
+        return Adt(t, 'Invalid', [Adt('Invalid', None, [_dummy_span()], ['span'])])
+    if t == 'Stmt':
+        return Adt('Stmt', 'Empty', [Adt('EmptyStmt', None, [_dummy_span()], ['span'])])
+    if t == 'Span':
+        return _dummy_span()
+    raise Unsupported('Take::dummy of ' + ty)
+
+
+@model(r'^<(.*) as (?:[\w:]*::)?Take>::(take|dummy)$')
+def m_swc_take(it, ctx, a, m, f):
+    d = _dummy_of(m.group(1))
+    if m.group(2) == 'dummy':
+        return d
+    r = a[0]
+    v = r.get(); r.set(d)
     return v
 
 
